@@ -19,7 +19,7 @@ RULE = ("Hypothesis draws well-formed definition closures (vlib.defgen.programs:
         "expressions, aliases of natives/aliases, nested structs and messages, scalar/array fields with literal or expression lengths, "
         "signals, reserved ids, field-list reuse, auto-padding, aliases of imported structs (also as field types), structs holding "
         "imported messages, string constants with quotes/backslashes, names containing MT_/MID_/HID_; validate_alignment on, auto_pad and "
-        "import_coredefs drawn; low-weight class 'zero-length'), preceded in every shard by a covering family in which each of the 26 native "
+        "import_coredefs drawn), preceded in every shard by a covering family in which each of the 26 native "
         "type names is a scalar field, an array element, an alias target used as scalar and as array, inside nested structs and struct "
         "arrays, compiled with the core definitions on and off.  Each program is compiled for real; ids, constants, string constants, "
         "module and host ids, hash values, field names/order/array lengths/element kind, width and signedness (as far as the language "
@@ -39,7 +39,7 @@ ASSUME = [
     "a language output that does not load at all is reported here as well (key <lang>/load/...), because nothing can then be compared",
 ]
 
-ALLOW = ("prefix-names", "zero-length")
+ALLOW = ("prefix-names", "zero-length")  # zero-length: rejected by the compiler since the repair of F21 (the generator no longer emits it)
 # classes that were tied to compiler defects which are repaired now: part of the normal domain, kept at a moderate weight
 FORMER = ("alias-of-imported-struct", "alias-of-imported-struct-field", "struct-contains-message", "string-special")
 PREFIXES = ("MT_", "MID_", "HID_")
